@@ -25,7 +25,8 @@ func init() {
 			"R10 a 401 answered to a freshly issued token is surfaced as 403: after the second forward the response is returned as-is only under status != 401 or no token was acquired, otherwise its status is set to 403. " +
 			"R4b challengeFromResponse adopts a parsed header only on paths where its scheme is basic or bearer. " +
 			"R4c the remembered per-host challenge is only ever a challenge parsed from a response; R11 (as C07.R8) returned responses still have their body. " +
-			"R12 challenge parameters are stored under lower-cased names.",
+			"R12 challenge parameters are stored under lower-cased names. " +
+			"R13 after RoundTrip re-opened the request body (GetBody) every path to a return forwards the request or closes the body.",
 		NotDecided: "correctness of the challenge parser on arbitrary header text, and the redirect behaviour of net/http's client for token requests (assumed not to forward Authorization across hosts), are not decided.",
 		Technique:  "static analysis: source-to-sink confinement on SSA def-use chains, dominance guards, CFG cycle/count analysis",
 	})
@@ -49,6 +50,7 @@ func runC11(c *core.Ctx) {
 	returnedResponseBodyOpen(c, "C11.R11")
 	hostKeying(c, "C11.R6")
 	c11RequestUnmodified(c, rt)
+	rewoundBodyIsForwardedOrClosed(c, "C11.R13", rt)
 	c11BodyClosed(c, rt)
 	c11Attempts(c, rt)
 }
